@@ -213,6 +213,14 @@ def r2(ctx: Ctx) -> None:
         paths = ctx.paths(f.qualname)
         problems: List[Dict[str, Any]] = []
         n = 0
+        from ..kit import is_helper
+
+        sites = ctx.cg.sites_calling(f.qualname)
+        deferred = bool(is_helper(f) and f.name.startswith("_") and sites)
+        if deferred:
+            for s_ in sites:
+                if s_.caller not in funcs:
+                    funcs.append(s_.caller)
         for p in paths:
             if p.exit[0] == "raise":
                 continue
@@ -221,6 +229,8 @@ def r2(ctx: Ctx) -> None:
             _scan_heap(ctx, f, p, dirty, problems)
             if dirty and _no_iteration_ran(p):
                 continue  # the path decided that the list filled alongside every queue mutation is empty: no mutation happened
+            if dirty and deferred:
+                continue  # a private helper: what it leaves behind is judged where it is called (its events are part of the caller's paths)
             for q, why in dirty.items():
                 problems.append({"what": f"returns with {q} possibly not a heap after {why}", "node": f.node})
         uniq = sorted({pr["what"] for pr in problems})
@@ -421,3 +431,10 @@ def check_order_ids(ctx: Ctx) -> None:
 @rule("C02.R7", "order ids are unique within a market and grow with acceptance: the counter is only started by the constructor and advanced past every id handed out", "T1 who-may-write + T7 difference", floor=2)
 def r7(ctx: Ctx) -> None:
     check_order_ids(ctx)
+
+
+@rule("C02.H2", "prices, times and ids are compared by value wherever orders are ranked (two equal prices are one price level, whichever float objects hold them)", "T13 lint over Order, OrderKind, OrderBook", floor=15)
+def h2(ctx: Ctx) -> None:
+    from .events import check_identity_comparisons
+
+    check_identity_comparisons(ctx, ["Order", "OrderKind", "OrderBook"], floor=15)
